@@ -32,12 +32,14 @@ pub fn func_edit_profile() -> Profile {
         ("add_export_func", 2),
         ("add_global", 1),
     ]);
-    p.modes = SIMPLE_MODES.to_vec();
+    // function-level probes too: their bodies are copied around by the lowering and carry references
+    p.modes = vec![Mode::Before, Mode::After, Mode::Alternate, Mode::EmptyAlternate, Mode::Before, Mode::After, Mode::FuncEntry, Mode::FuncExit];
     p
 }
 
 pub fn global_edit_profile() -> Profile {
     let mut p = Profile::base("global-edit");
+    p.modes = vec![Mode::Before, Mode::After, Mode::Alternate, Mode::EmptyAlternate, Mode::Before, Mode::After, Mode::FuncEntry, Mode::FuncExit];
     p.max_globals = 4;
     p.atomics = true;
     p.max_imp_funcs = 2;
@@ -55,6 +57,7 @@ pub fn global_edit_profile() -> Profile {
 
 pub fn memory_edit_profile() -> Profile {
     let mut p = Profile::base("memory-edit");
+    p.modes = vec![Mode::Before, Mode::After, Mode::Alternate, Mode::EmptyAlternate, Mode::Before, Mode::After, Mode::FuncEntry, Mode::FuncExit];
     p.max_mems = 3;
     p.multi_memory = true;
     p.atomics = true;
@@ -472,7 +475,8 @@ fn owns(id: &str, m: &Mismatch) -> bool {
                 || (k == "unexpected_panic" && s.starts_with("op:delete"))
         }
         "C12" => {
-            (k == "entity_changed" && s.starts_with("func(built)"))
+            (matches!(k, "name_lost" | "name_migrated") && s == "func(built)")
+                || (k == "entity_changed" && s.starts_with("func(built)"))
                 || (k == "local_decl" && s == "func(built)")
                 || (k == "body_sequence" && s.starts_with("func(built)"))
                 || (k == "returned_id" && s == "build_func")
